@@ -45,4 +45,10 @@ for d in sorted(glob.glob(f"{ROOT}/harmless/*.diff")):
     und = {p: v for p, v in out.items() if v[0] == 2}
     res[name] = dict(false_alarms=alarms, undecided=und)
     print(name, "FALSE-ALARM" if alarms else ("undecided:" + ",".join(und) if und else "ok"), " | ".join(f"{p}:{v[1][:140]}" for p, v in list(alarms.items()) + list(und.items())[:2]))
-json.dump(res, open(f"{ROOT}/harmless/results.json", "w"), indent=1)
+# merge into the stored results (a partial run updates its own entries only)
+try:
+    allres = json.load(open(f"{ROOT}/harmless/results.json"))
+except Exception:
+    allres = {}
+allres.update(res)
+json.dump(allres, open(f"{ROOT}/harmless/results.json", "w"), indent=1)
